@@ -317,7 +317,8 @@ def make_items(tier, seed):
     for lst in shapes(rt[:100], rnd):
         core.append({"kind": "synth", "fam": "random", "list": lst})
     progs = corpus.u_bool_small() + corpus.u_bool_multistmt() + corpus.u_ctl() + corpus.u_unit(widths=(2, 3))[::5] + [p for p in corpus.u_repo_frozen() if corpus.size_ok(p[1], 12, 60)]
-    for fam, src in progs[:120]:
+    ctl_core = [p for p in corpus.u_ctl() if corpus.size_ok(p[1], 12, 60)]
+    for fam, src in progs[:120] + ctl_core:
         core.append({"kind": "prog", "fam": fam, "src": src})
     for t in ooa:
         rest.append({"kind": "synth", "fam": "or-of-ands", "list": [["_ret", t]]})
